@@ -56,6 +56,9 @@ EXPLANATION = ('validate_constants equals the documented rule list; accumulator 
                'core range sound; skip only where the rate is constant; after-skip bookkeeping equals stepping; trading gated by trade_enable_timestamp')
 
 
+TECHNIQUE = TECHNIQUE + '; complemented by Engine M (rustc MIR -> integer SMT, z3 5.1): the exact total-rate formula, the per-iteration wiring of the manager calls in swap() with an abstract manager (A0-A6), the trade-enable gate of the four swap handlers'
+
+
 def run(ctx):
     # Engine M: the exact rate formula (not decided by SAT) and the trade-enable glue of the four swap handlers (handler mode, shared with C17)
     # c14w: how swap() drives the manager (A0-A6: the step is charged the rate of THIS iteration, advance call matches the skip flag, major-swap timestamp arguments), abstract manager
